@@ -60,7 +60,12 @@ def selftest_interpreter(ctx, rounds=40):
             if isinstance(e, np.ndarray) and e.size == 0:
                 continue
             if not same(r, conc(e) if not isinstance(e, np.ndarray) else e):
-                raise core.CheckerError(f"interpreter differs from CPython on {fn.__name__}({A.tolist()})")
+                # the interpreter does not reproduce CPython on this (possibly modified) code: its verdicts on this function are not trusted
+                ctx.selfcheck.setdefault("interpreter_disagrees_with_cpython_on", []).append(fn.__name__)
+                fam = ctx.family("C18.selftest.interpreter_faithful", core.SYM, "pyvc")
+                ctx.record(fam, core.UNKNOWN)
+                ctx.undecide(fam, f"interpreter differs from CPython on {fn.__name__}({A.tolist()}): SYM verdicts for this function are withheld")
+                break
             n += 1
     ctx.selfcheck["interpreter_vs_cpython_concrete_runs"] = n
 
@@ -75,9 +80,9 @@ def run(ctx: core.Ctx):
     except core.CheckerError:
         raise
     except Exception as e:
-        if not ctx.violations:
-            raise
-        ctx.selfcheck["interpreter_vs_cpython_concrete_runs"] = f"skipped: interpreter could not run the modified code ({type(e).__name__}: {e})"
+        fam = ctx.family("C18.selftest.interpreter_faithful", core.SYM, "pyvc")
+        ctx.record(fam, core.UNKNOWN)
+        ctx.undecide(fam, f"interpreter could not run the code concretely ({type(e).__name__}: {e})")
     q = ctx.quick
     tasks = []
     # ---- mat_mul / add
@@ -158,6 +163,53 @@ def bounded(ctx):
         if not ok:
             ctx.violate(fam, f"bounded:{m}x{n}:{A.tobytes().hex()[:24]}", f"random {m}x{n} matrix violates the f2_algebra contracts",
                         {"args": [{"ndarray": A.tolist(), "dtype": "int8"}]})
+    # pivot patterns: null_space / rank depend on A only through (rref(A), pivots); every pivot pattern of up to 12 columns (and all patterns with at most
+    # 4 or at least n-4 pivots for 16, 20, 24 columns) is presented once, as a tall and as a wide matrix with random free entries and random row mixing
+    fam3 = ctx.family("C18.bounded.pivot_patterns", BOUNDED, "native", "contracts on matrices realising every pivot-column pattern (random free entries, random invertible row mixing, tall and wide)")
+    fam3.exhaustive = False
+    import itertools
+
+    def realise(n, piv, tall):
+        r = len(piv)
+        Bm = np.zeros((r, n), dtype=np.int8)
+        for t, c in enumerate(piv):
+            Bm[t, c] = 1
+            for f in range(c + 1, n):
+                if f not in piv:
+                    Bm[t, f] = rng.integers(0, 2)
+        m = (n + 1 + int(rng.integers(0, 4))) if tall else max(r, 1)
+        A = np.zeros((max(m, r, 1), n), dtype=np.int8)
+        A[:r] = Bm
+        for _ in range(3 * A.shape[0]):           # invertible row mixing keeps the row space
+            a, b = rng.integers(0, A.shape[0], 2)
+            if a != b:
+                A[a] ^= A[b]
+        return A
+
+    patterns = []
+    for n in ((4, 8, 12) if ctx.quick else (4, 8, 10, 12, 14)):
+        cols = range(n)
+        if n <= 10 or not ctx.quick:
+            patterns += [(n, p) for r in range(n + 1) for p in itertools.combinations(cols, r)] if n <= (12 if not ctx.quick else 8) else []
+        if n > 8 and ctx.quick or n > 12:
+            patterns += [(n, p) for r in list(range(0, 5)) + list(range(n - 3, n + 1)) for p in itertools.combinations(cols, r)]
+    for n in (16, 20, 24):
+        patterns += [(n, p) for r in (0, 1, 2, 3) + ((4,) if not ctx.quick else ()) for p in itertools.combinations(range(n), r)]
+        patterns += [(n, tuple(c for c in range(n) if c not in q)) for r in (0, 1, 2) for q in itertools.combinations(range(n), r)]
+    def pattern_job(chunk):
+        res = []
+        for n, piv in chunk:
+            for tall in (True, False):
+                A = realise(n, list(piv), tall)
+                res.append((contract_ok(A.copy()), n, piv, tall, A if True else None))
+        return [(ok, n, piv, tall, None if ok else A.tolist()) for ok, n, piv, tall, A in res]
+
+    for res in core.pmap(pattern_job, core.chunked(patterns, 64), chunks=1):
+        for ok, n, piv, tall, A in res:
+            ctx.record(fam3, PROVED if ok else REFUTED, {"columns": n, "pivots": list(piv), "tall": tall} if fam3.total < 2 else None)
+            if not ok:
+                ctx.violate(fam3, f"pivots:{n}:{piv}:{tall}", f"{len(A)}x{n} matrix with pivot columns {list(piv)} violates the f2_algebra contracts",
+                            {"args": [{"ndarray": A, "dtype": "int8"}], "pivots": list(piv)})
     # call histories: the same entries presented in another shape / dtype right after each other must not influence each other
     fam2 = ctx.family("C18.bounded.call_history", BOUNDED, "native", "contracts hold for each call of a sequence of calls on matrices sharing their flattened entries")
     fam2.exhaustive = False
